@@ -91,12 +91,20 @@ fn is_valid_domain(mut s: &str) -> bool {
 }
 
 fn parse_host_header<'a>(base_domain: &'a str, host: &'a str) -> Option<VirtualHost<'a>> {
-    if host == base_domain {
+    // host names are case-insensitive
+    if host.eq_ignore_ascii_case(base_domain) {
         return Some(VirtualHost::new(base_domain));
     }
 
-    if let Some(bucket) = host.strip_suffix(base_domain).and_then(|h| h.strip_suffix('.')) {
-        return Some(VirtualHost::with_bucket(base_domain, bucket));
+    let prefix_len = host.len().checked_sub(base_domain.len())?;
+    if !host.is_char_boundary(prefix_len) {
+        return None;
+    }
+    let (prefix, suffix) = host.split_at(prefix_len);
+    if suffix.eq_ignore_ascii_case(base_domain) {
+        if let Some(bucket) = prefix.strip_suffix('.') {
+            return Some(VirtualHost::with_bucket(base_domain, bucket.to_ascii_lowercase()));
+        }
     }
 
     None
@@ -168,7 +176,8 @@ impl MultiDomain {
             }
 
             for other in &v {
-                if domain.ends_with(other) || other.ends_with(domain) {
+                let (domain, other) = (domain.to_ascii_lowercase(), other.to_ascii_lowercase());
+                if domain.ends_with(&other) || other.ends_with(&domain) {
                     return Err(DomainError::OverlappingSubdomains);
                 }
             }
